@@ -182,12 +182,6 @@ theorem lastAttempt_after_send (t : MsgType) (snap cache : Msg Rec) (err : Nat) 
   · subst herr; exact (book_success t snap cache clock p).2.1
   · exact (book_failure t snap cache err herr clock p).2.1
 
-theorem adj_cons_of {α : Type} (R : α → α → Prop) (a : α) (l : List α)
-    (h : ∀ b, l.head? = some b → R a b) (hl : Adj R l) : Adj R (a :: l) := by
-  cases l with
-  | nil => trivial
-  | cons b l => exact ⟨h b rfl, hl⟩
-
 theorem paced_aux (j : Nat) (steps : List (Step Rec)) :
     ∀ (s : TState Rec) (prev : Option JEv),
       (∀ a, prev = some (.att a) → ∃ e, s.peers[j]? = some e ∧ e.2.lastAttempt = max 0 a.clock) →
